@@ -163,7 +163,8 @@ def perturb(case, x, gid, ng, r):
     kind = case["perturb"]
     others = gid != r
     dtype = x.dtype
-    x2 = x.clone()
+    # every third case perturbs the SAME tensor object in place (an optimizer step): nothing may be remembered from the first call
+    x2 = x if (case["k"] % 3 == 0 and kind != "permute") else x.clone()
     axis = case["axis"]
     if kind == "replace":
         c2 = dict(case, seed=case["seed2"], classes=[(c + 1 + case["k"]) % R.NCLS for c in case["classes"]], mags=[((m + 6 + case["k"]) % 11) - 6 for m in case["mags"]])
@@ -201,7 +202,9 @@ def exec_case(case):
         return out
     gid, ng = a["gid"], a["ng"]
     r = case["target"] % ng
+    x_orig = x.clone()  # (the perturbation may be applied to x itself, in place)
     x2, r2 = perturb(case, x, gid, ng, r)
+    x = x_orig
     out2 = Outcome()
     b = analyse(case, x2, tag, out2)
     # failures of the perturbed tensor are genuine failures of another input: report them too
